@@ -495,3 +495,37 @@ pub fn bdd_line(prog: &Program, cache: CacheKind, tblcap: usize) -> String {
         Err(e) => format!("{} => {}", head, e),
     }
 }
+
+/// parse the `ops=` field of a printed line back into a program (debugging aid: replay of a
+/// stored line against the current tree)
+pub fn parse_ops(s: &str) -> Vec<Op> {
+    s.split('|')
+        .map(|t| {
+            let (name, args) = t.split_once(':').unwrap();
+            let a: Vec<&str> = args.split(',').collect();
+            let n = |i: usize| a[i].parse::<usize>().unwrap();
+            let b = |i: usize| a[i] == "1";
+            match name {
+                "const" => Op::Const(b(0)),
+                "var" => Op::Var(n(0), b(1)),
+                "newvar" => Op::NewVar(b(0)),
+                "neg" => Op::Neg(n(0)),
+                "and" => Op::And(n(0), n(1)),
+                "or" => Op::Or(n(0), n(1)),
+                "xor" => Op::Xor(n(0), n(1)),
+                "iff" => Op::Iff(n(0), n(1)),
+                "ite" => Op::Ite(n(0), n(1), n(2)),
+                "cond" => Op::Cond(n(0), n(1), b(2)),
+                "condm" => Op::CondM(
+                    n(0),
+                    a[1].chars().map(|c| match c { 't' => Some(true), 'f' => Some(false), _ => None }).collect(),
+                ),
+                "exist" => Op::Exist(n(0), n(1)),
+                "compose" => Op::Compose(n(0), n(1), n(2)),
+                "andl" => Op::AndL(if args.is_empty() { vec![] } else { a.iter().map(|x| x.parse().unwrap()).collect() }),
+                "orl" => Op::OrL(if args.is_empty() { vec![] } else { a.iter().map(|x| x.parse().unwrap()).collect() }),
+                _ => panic!("unknown op {}", name),
+            }
+        })
+        .collect()
+}
